@@ -159,6 +159,91 @@ theorem idxOf_get {l : List String} {x : String} (h : x ∈ l) : l[l.idxOf x]? =
   have hl : l.idxOf x < l.length := List.idxOf_lt_length_iff.2 h
   rw [List.getElem?_eq_getElem hl, List.getElem_idxOf hl]
 
+/-! ### name → row (audit finding 2): the last position of a name, by role -/
+theorem lastIdx_get {l : List String} {x : String} (h : x ∈ l) : l[lastIdx l x]? = some x ∧ lastIdx l x < l.length := by
+  have hr : x ∈ l.reverse := List.mem_reverse.2 h
+  have hl : l.reverse.idxOf x < l.reverse.length := List.idxOf_lt_length_iff.2 hr
+  have hl' : l.reverse.idxOf x < l.length := by simpa using hl
+  have hg : l.reverse[l.reverse.idxOf x]? = some x := idxOf_get hr
+  unfold lastIdx
+  refine ⟨?_, by omega⟩
+  rw [List.getElem?_reverse hl'] at hg
+  exact hg
+
+theorem mem_take_or_drop {l : List String} {x : String} (n : Nat) (h : x ∈ l) : x ∈ l.take n ∨ x ∈ l.drop n := by
+  rw [← List.take_append_drop n l] at h
+  exact List.mem_append.1 h
+
+theorem take_get {l : List String} {n i : Nat} {x : String} (h : (l.take n)[i]? = some x) : l[i]? = some x ∧ i < l.length := by
+  have hi : i < (l.take n).length := (List.getElem?_eq_some_iff.1 h).1
+  rw [List.getElem?_take] at h
+  split at h
+  · exact ⟨h, (List.getElem?_eq_some_iff.1 h).1⟩
+  · cases h
+
+theorem drop_get {l : List String} {n i : Nat} {x : String} (h : (l.drop n)[i]? = some x) : l[n + i]? = some x ∧ n + i < l.length := by
+  rw [List.getElem?_drop] at h
+  exact ⟨h, (List.getElem?_eq_some_iff.1 h).1⟩
+
+theorem cellPos_get {nio : Nat} {l : List String} {x : String} (h : x ∈ l) : l[cellPos nio l x]? = some x ∧ cellPos nio l x < l.length := by
+  unfold cellPos
+  by_cases hd : (l.drop nio).contains x = true
+  · simp only [hd, if_true]
+    exact drop_get (lastIdx_get (by simpa using hd)).1
+  · simp only [hd, Bool.false_eq_true, if_false]
+    have : x ∈ l.take nio := by
+      rcases mem_take_or_drop nio h with h' | h'
+      · exact h'
+      · exact absurd (by simpa using h') hd
+    exact take_get (lastIdx_get this).1
+
+theorem portPos_get {nio : Nat} {l : List String} {x : String} (h : x ∈ l) : l[portPos nio l x]? = some x ∧ portPos nio l x < l.length := by
+  unfold portPos
+  by_cases hd : (l.take nio).contains x = true
+  · simp only [hd, if_true]
+    exact take_get (lastIdx_get (by simpa using hd)).1
+  · simp only [hd, Bool.false_eq_true, if_false]
+    have : x ∈ l.drop nio := by
+      rcases mem_take_or_drop nio h with h' | h'
+      · exact absurd (by simpa using h') hd
+      · exact h'
+    exact drop_get (lastIdx_get this).1
+
+theorem cellRow_get {c : Circ} {x : String} (h : x ∈ c.sNodes) : c.sNodes[c.cellRow x]? = some x := (cellPos_get h).1
+theorem cellRow_lt {c : Circ} {x : String} (h : x ∈ c.sNodes) : c.cellRow x < c.sNodes.length := (cellPos_get h).2
+theorem portRow_get {c : Circ} {x : String} (h : x ∈ c.sNodes) : c.sNodes[c.portRow x]? = some x := (portPos_get h).1
+theorem portRow_lt {c : Circ} {x : String} (h : x ∈ c.sNodes) : c.portRow x < c.sNodes.length := (portPos_get h).2
+
+/-- the state-element part of `s_nodes` -/
+def Circ.stateNames (c : Circ) : List String :=
+  (c.nodes.filter fun n => Stil.hasSub "dff".toList (lowerOf n.2)).map (·.1) ++
+  (c.nodes.filter fun n => Stil.hasSub "latch".toList (lowerOf n.2)).map (·.1)
+
+theorem sNodes_split (c : Circ) : c.sNodes = c.io ++ c.stateNames := by simp [Circ.sNodes, Circ.stateNames]
+theorem sNodes_take (c : Circ) : c.sNodes.take c.io.length = c.io := by rw [sNodes_split]; simp
+theorem sNodes_drop (c : Circ) : c.sNodes.drop c.io.length = c.stateNames := by rw [sNodes_split]; simp
+
+/-- **by role**: a scan cell that IS a state element gets a state row (at or behind `io.length`) — also when a port has its name -/
+theorem cellRow_state {c : Circ} {x : String} (h : x ∈ c.stateNames) :
+    c.io.length ≤ c.cellRow x ∧ c.stateNames[c.cellRow x - c.io.length]? = some x := by
+  unfold Circ.cellRow cellPos
+  have hd : c.stateNames.contains x = true := by simpa using h
+  simp only [sNodes_drop, hd, if_true]
+  exact ⟨by omega, by rw [Nat.add_sub_cancel_left]; exact (lastIdx_get h).1⟩
+
+/-- **by role**: a `_pi`/`_po` member that IS a port gets a port row (in front of `io.length`) — also when a flip-flop has its name -/
+theorem portRow_port {c : Circ} {x : String} (h : x ∈ c.io) : c.portRow x < c.io.length ∧ c.io[c.portRow x]? = some x := by
+  unfold Circ.portRow portPos
+  have hd : c.io.contains x = true := by simpa using h
+  simp only [sNodes_take, hd, if_true]
+  exact ⟨(lastIdx_get h).2, (lastIdx_get h).1⟩
+
+/-- where names are unique all look-ups agree with the first position (the earlier formulation of the theorems) -/
+theorem lastIdx_nodup {l : List String} {x : String} (hnd : l.Nodup) (h : x ∈ l) : lastIdx l x = l.idxOf x := by
+  have h1 := lastIdx_get h
+  have h2 : l[l.idxOf x]? = some x := idxOf_get h
+  exact (List.getElem?_inj h1.2 hnd).1 (h1.1.trans h2.symm)
+
 /-- all target rows of the scan cells (per chain, from scan-out), of `_pi` and of `_po` -/
 def Maps.scanRows (m : Maps) : List Nat := m.chains.flatMap (·.map)
 
@@ -166,16 +251,17 @@ section cell
 variable (c : Circ) (fl : File) (p : Pat) (ch : Chain) (pre post : List String) (x : String)
 
 theorem chainMap_mem (hch : ch ∈ fl.chains) :
-    chainMap .spec c.sNodes ch ∈ (mapsPure .spec c fl).chains := by
+    chainMap .spec c.io.length c.sNodes ch ∈ (mapsPure .spec c fl).chains := by
   simp only [mapsPure, Mode.spec, Circ.intf]
   exact List.mem_map_of_mem hch
 
 theorem chainMap_row (hmid : ch.mid = pre ++ x :: post) (hx : isMark x = false) :
-    (chainMap .spec c.sNodes ch).map[(cellsOf post).length]? = some (c.sNodes.idxOf x) := by
+    (chainMap .spec c.io.length c.sNodes ch).map[(cellsOf post).length]? = some (c.cellRow x) := by
   simp only [chainMap, List.getElem?_map, hmid, scanNames_at pre post hx, Option.map_some]
+  rfl
 
 theorem row_mem_scanRows (hch : ch ∈ fl.chains) (hmid : ch.mid = pre ++ x :: post) (hx : isMark x = false) :
-    c.sNodes.idxOf x ∈ (mapsPure .spec c fl).scanRows := by
+    c.cellRow x ∈ (mapsPure .spec c fl).scanRows := by
   unfold Maps.scanRows
   exact List.mem_flatMap.2 ⟨_, chainMap_mem c fl ch hch, List.mem_of_getElem? (chainMap_row c ch pre post x hmid hx)⟩
 
@@ -183,7 +269,7 @@ theorem row_mem_scanRows (hch : ch ∈ fl.chains) (hmid : ch.mid = pre ++ x :: p
 theorem loadWrites_mem (f : Bool → V3 → V3) (hch : ch ∈ fl.chains) (hmid : ch.mid = pre ++ x :: post)
     (hx : isMark x = false) {s : List Char} (hs : p.load.lookup ch.si = some s) {cj : Char}
     (hcj : s[(cellsOf post).length]? = some cj) :
-    (c.sNodes.idxOf x, f (odd (markers pre)) (interp cj)) ∈ loadWrites f (mapsPure .spec c fl).chains p := by
+    (c.cellRow x, f (odd (markers pre)) (interp cj)) ∈ loadWrites f (mapsPure .spec c fl).chains p := by
   unfold loadWrites
   refine List.mem_flatMap.2 ⟨_, chainMap_mem c fl ch hch, ?_⟩
   refine mem_zip_of_getElem? (chainMap_row c ch pre post x hmid hx) ?_
@@ -195,7 +281,7 @@ theorem loadWrites_mem (f : Bool → V3 → V3) (hch : ch ∈ fl.chains) (hmid :
 theorem unloadWrites_mem (hch : ch ∈ fl.chains) (hmid : ch.mid = pre ++ x :: post)
     (hx : isMark x = false) {s : List Char} (hs : p.unload.lookup ch.so = some s) {cj : Char}
     (hcj : s[(cellsOf post).length]? = some cj) :
-    (c.sNodes.idxOf x, xorInv (odd (markers post)) (interp cj)) ∈ unloadWrites (mapsPure .spec c fl).chains p := by
+    (c.cellRow x, xorInv (odd (markers post)) (interp cj)) ∈ unloadWrites (mapsPure .spec c fl).chains p := by
   unfold unloadWrites
   refine List.mem_flatMap.2 ⟨_, chainMap_mem c fl ch hch, ?_⟩
   refine mem_zip_of_getElem? (chainMap_row c ch pre post x hmid hx) ?_
@@ -212,9 +298,9 @@ theorem mapsPure_n (c : Circ) (fl : File) : (mapsPure .spec c fl).n = c.sNodes.l
 /-- a `_pi` / `_po` store: `k`-th member of the group and `k`-th character -/
 theorem group_write_mem (c : Circ) (names : List String) (s : List Char) (k : Nat) (x : String) (ck : Char)
     (hk : names[k]? = some x) (hs : s[k]? = some ck) :
-    (c.sNodes.idxOf x, interp ck) ∈ (names.map fun n => c.sNodes.idxOf n).zip (mvarray s) := by
+    (c.portRow x, interp ck) ∈ (names.map fun n => portLook .spec c.io.length c.sNodes n).zip (mvarray s) := by
   refine mem_zip_of_getElem? (j := k) ?_ ?_
-  · simp [hk]
+  · simp only [List.getElem?_map, hk, Option.map_some]; rfl
   · simp [mvarray, hs]
 
 /-! ## results of the three functions when nothing raises -/
